@@ -20,6 +20,7 @@ def explore(ctx):
                        exhaustive=(5, 6) if ctx.quick else (7, 8))
     cc.decimal_stream(ctx, 1500 if ctx.quick else 15000)
     cc.decimal_stream(ctx, 1500 if ctx.quick else 15000, sum_negative=True)
+    narrow_parameter_stream(ctx)
     # an adjacency object used for several arrays must give each the leaves it would get alone
     from . import grid_common
     grid_common.reused_adjacency_stream(ctx, 100 if ctx.quick else 1000)
@@ -45,3 +46,39 @@ def replay(path):
         return 1 if fails else 0
     print(json.dumps(r, indent=1)[:3000])
     return 1
+
+
+def narrow_parameter_stream(ctx):
+    """Criteria thresholds given as numpy scalars of single / half precision (e.g. 3 * image.std() of a float32 image) mean
+    the number they hold: the dendrogram must be the one obtained with the same number as a Python float.  Data on a
+    very fine grid (differences far below single precision).  Differential, oracle only."""
+    import numpy as np
+    from astrodendro import Dendrogram, pruning
+    rng = ctx.rng('c05-narrow-params')
+    for it in range(120 if ctx.quick else 1200):
+        n = rng.randint(4, 9)
+        fine = [rng.randint(0, 8) * 2.0 ** -rng.choice([29, 30, 31, 40]) for _ in range(n)]
+        coarse = [rng.choice([0.0, 0.0, 1.0, 2.0, 3.0, 0.5]) for _ in range(n)]
+        vals = [c + f for c, f in zip(coarse, fine)]
+        dt = rng.choice(['float64', 'float32'])
+        arr = np.array(vals, dtype=dt)
+        thr = rng.choice([1.0, 0.5, 2.0, 3.0])
+        kind = rng.choice(['min_delta', 'min_delta', 'min_peak', 'min_sum'])
+        narrow = rng.choice([np.float32, np.float32, np.float16])(thr)
+
+        def run(t):
+            if kind == 'min_delta':
+                return Dendrogram.compute(arr, min_value=-1.0, min_delta=t)
+            crit = pruning.min_peak(t) if kind == 'min_peak' else pruning.min_sum(t)
+            return Dendrogram.compute(arr, min_value=-1.0, is_independent=crit)
+        try:
+            a, b = run(float(thr)), run(narrow)
+        except Exception as e:
+            ctx.oracle_failure({'stream': 'narrow parameters', 'data': vals, 'dtype': dt, 'criterion': kind, 'threshold': thr}, ['compute raised %r' % (e,)])
+            continue
+        ha, hb = impl.impl_hierarchy(a, (n,)), impl.impl_hierarchy(b, (n,))
+        ctx.count('narrow_parameter/%s' % kind)
+        ctx.case_done(None, ('narrow-param', tuple(vals), dt, kind, thr) if len(a) >= 2 else None)
+        if ha != hb:
+            ctx.oracle_failure({'stream': 'narrow parameters', 'data': vals, 'dtype': dt, 'criterion': kind, 'threshold': thr},
+                               ['%s=%r as a Python float gives %s, as %s gives %s' % (kind, thr, ha, type(narrow).__name__, hb)])
